@@ -182,7 +182,11 @@ func (rt *runtime) cmplEvaluateNodeBracketExpression(node *nodeBracketExpression
 		}
 		panic(rt.panicTypeError("Cannot access member %q of %s", name, err, at(node.idx)))
 	}
-	return toValue(newPropertyReference(rt, obj, memberValue.string(), false, at(node.idx)))
+	ref := newPropertyReference(rt, obj, memberValue.string(), false, at(node.idx))
+	if !targetValue.IsObject() {
+		ref.primitive = &targetValue
+	}
+	return toValue(ref)
 }
 
 func (rt *runtime) cmplEvaluateNodeCallExpression(node *nodeCallExpression, withArgumentList []interface{}) Value {
@@ -206,7 +210,7 @@ func (rt *runtime) cmplEvaluateNodeCallExpression(node *nodeCallExpression, with
 		switch rf := rf.(type) {
 		case *propertyReference:
 			name = rf.name
-			this = objectValue(rf.base)
+			this = rf.thisValue()
 			// Possible direct eval: only when eval is named by an identifier (found in the global
 			// object or a with object), never when it is called as a member of an object (15.1.2.1.1).
 			_, identifier := node.callee.(*nodeIdentifier)
@@ -266,7 +270,11 @@ func (rt *runtime) cmplEvaluateNodeDotExpression(node *nodeDotExpression) Value 
 	if err != nil {
 		panic(rt.panicTypeError("Cannot access member %q of %s", node.identifier, err, at(node.idx)))
 	}
-	return toValue(newPropertyReference(rt, obj, node.identifier, false, at(node.idx)))
+	ref := newPropertyReference(rt, obj, node.identifier, false, at(node.idx))
+	if !targetValue.IsObject() {
+		ref.primitive = &targetValue
+	}
+	return toValue(ref)
 }
 
 func (rt *runtime) cmplEvaluateNodeNewExpression(node *nodeNewExpression) Value {
